@@ -70,7 +70,7 @@ def run(c):
     if not ok:
         c.broken.append({"kind": "proof", "what": "Coq build of theories/Hostile/Cases.v failed", "detail": log[-2500:]})
     quick = c.tier == "quick"
-    n_edf, n_fr, n_hs = (1200, 300, 150) if quick else (12000, 2500, 1500)
+    n_edf, n_fr, n_hs = (1000, 300, 150) if quick else (12000, 2500, 1500)
     if c.replay:
         try:
             eng = json.load(open(c.replay)).get("engine", "")
